@@ -65,7 +65,7 @@ claims = {
          "NOT claimed: equality of verdict and catalog of two whole documents under the listed rewritings (comments and blank lines between directives, re-indentation, CRLF, quoting, explicit parentheses) - that relates two complete runs and is outside contracts; the lemmas are necessary conditions for it. Assumed: callees are deterministic functions of their arguments and of the listed receiver fields (the lemma itself for step-function callees; an assumption for helpers).",
          "contract-based deductive verification: two-run (product) VCs of each state function + one-run postconditions, go/ssa, z3/cvc5", "DESIGN.md 4.C05"),
  "C02": ("proof",
-         "Contracts on jerr (line/quote arithmetic against a counting specification with the file's own line-end byte, location construction, include-trace append: innermost first, one entry per stack element) discharged for all inputs by SMT with wrap-around machine arithmetic; every error constructor under contract yields an index inside the file it names; an error built from a directive carries that directive's include chain and is located at its own keyword or in its own body (makeError precondition + callers scan); jerr.NewJApiError is called only by the six declared constructors (callers scan); scanProject attaches the chain on every error path; no directive is pending when an included file is entered. Known finding F7 (include-tracer cache keyed by file only).",
+         "Contracts on jerr (line/quote arithmetic against a counting specification with the file's own line-end byte, location construction, include-trace append: innermost first, one entry per stack element) discharged for all inputs by SMT with wrap-around machine arithmetic; every error constructor under contract yields an index inside the file it names; an error built from a directive carries that directive's include chain and is located at its own keyword or in its own body (makeError precondition + callers scan); jerr.NewJApiError is called only by the six declared constructors (callers scan); scanProject attaches the chain on every error path, and drainCurrentScanner / isScanningFinished (checked, not trusted) keep the include stack well formed on every path; no directive is pending when an included file is entered. Known finding F7 (include-tracer cache keyed by file only).",
          "Trusted: go/ssa translation, govc VC generator, SMT solvers; assumed contracts listed in evidence.assumptions.",
          "contract-based deductive verification: go/ssa weakest-precondition style VCs discharged by z3/cvc5", "DESIGN.md 4.C02"),
 }
